@@ -53,9 +53,6 @@ impl Bv {
     pub fn zero(width: u32) -> Bv {
         Bv::new(width, vec![], vec![])
     }
-    pub fn all_x(width: u32) -> Bv {
-        Bv::new(width, vec![], vec![u64::MAX; nwords(width)])
-    }
     /// zero-extend or truncate (payload and mask alike)
     pub fn resize(&self, width: u32) -> Bv {
         Bv::new(width, self.words.clone(), self.mask.clone())
